@@ -294,6 +294,9 @@ class ThreadSim:
                 self.plan[(rec[0], rec[1])] = rec[2]
         self.policy = None if self.replay else Policy(policy_spec or {"kind": "none"}, rng)
         self.timed_waits = dict((policy_spec or {}).get("tw") or {})
+        # the caller threads of an application need not be threading.Thread objects (a legacy module using
+        # _thread.start_new_thread, callback threads of a C library): threading.active_count() does not see those
+        self.raw_threads = bool((policy_spec or {}).get("raw"))
         self.threads = []
         self.by_ident = {}
         self.back = _thread.allocate_lock()
@@ -421,6 +424,10 @@ class ThreadSim:
         if _SIM is not None:
             raise RuntimeError("nested ThreadSim")
         for t in self.threads:
+            if self.raw_threads:
+                # (parked on its private lock at once: it is safe to register the ident afterwards)
+                self.by_ident[_thread.start_new_thread(self._thread_main, (t,))] = t
+                continue
             th = _real_threading.Thread(target=self._thread_main, args=(t,),
                                         name=f"sim-{t.idx}", daemon=True)
             t.thread = th
